@@ -24,13 +24,13 @@ C18TXT = ("PARTIAL. Decided, on simulated state only: Hedger(BlackScholes(d)) an
 TECH = "deterministic simulation with fault injection: "
 CLAIMED = {
     "C01": {
-        "text": "Every compute_pl / compute_portfolio / compute_pnl in seeded histories (H = 1..3 hedging instruments incl. listed derivatives priced by Black-Scholes modules and a second primary, distinct cost rates, market-data faults F9 - jumps, crashes, zig-zag, flat, pinned - and re-simulation F10) and direct pl()/terminal_value() calls on simulator tapes are compared with a broker ledger evaluated in exact rational arithmetic; admissible error is a forward rounding bound of the working dtype. The oracle gathers prices, positions, cost rates and payoff itself (spot of each hedge, a separate compute_hedge, instrument.cost, derivative.payoff()), independently of how Hedger wires them.",
+        "text": "Every compute_pl / compute_portfolio / compute_pnl in seeded histories (H = 1..3 hedging instruments incl. listed derivatives priced by Black-Scholes modules and a second primary, distinct cost rates, market-data faults F9 - jumps, crashes, zig-zag, flat, pinned - and re-simulation F10) and direct pl()/terminal_value() calls on simulator tapes are compared with a broker ledger evaluated in exact rational arithmetic; admissible error is a forward rounding bound of the working dtype. The oracle gathers prices, positions, cost rates and payoff itself (spot of each hedge, a separate compute_hedge, instrument.cost, derivative.payoff()), independently of how Hedger wires them. Added by the mutant rounds: cost rates and listings changed on live instruments between evaluations, price scales from pennies to thousands, an earlier evaluation aborted by a raising model (F8), session replays for process-global state.",
         "design_ref": "DESIGN.md 6/C01",
         "note": "Bound (H*T+10)*eps*sum|terms|; non-finite inputs are skipped (counted); the direct pl() group is plain value generation and is labelled so in the evidence.",
         "technique": TECH + "exact-rational ledger reference model stepped through simulated time, market-data faults",
     },
     "C06": {
-        "text": "Every Hedger.price operation in seeded worlds (7 criteria incl. two user subclasses relying on the default cash search, flat markets, single paths, listed hedges, clauses, initial states, n_times up to 3) is followed, under RNG replay (F7), by: explicit recomputation -mean(cash(portfolio, target=payoff)) on identical paths; price(payoff + k) - price(payoff) = k for the cash-invariant criteria (a last clause registered on a twin derivative); entropic risk measure price = compute_loss on identical paths; cash(x, target=z) = cash(x - z); on every produced P&L sample, incl. stacked multi-column and constant samples: criterion(constant sample at cash) = criterion(sample), min <= cash <= max, cash <= mean for risk-averse criteria, quadratic CVaR cash = -risk; a fresh clone (F3) quotes the same price, also after another actor re-simulated the underlier (F10).",
+        "text": "Every Hedger.price operation in seeded worlds (7 criteria incl. two user subclasses relying on the default cash search, flat markets, single paths, listed hedges, clauses, initial states, n_times up to 3) is followed, under RNG replay (F7), by: explicit recomputation -mean(cash(portfolio, target=payoff)) on identical paths; price(payoff + k) - price(payoff) = k for the cash-invariant criteria (a last clause registered on a twin derivative); entropic risk measure price = compute_loss on identical paths; cash(x, target=z) = cash(x - z); on every produced P&L sample, incl. stacked multi-column and constant samples: criterion(constant sample at cash) = criterion(sample), min <= cash <= max, cash <= mean for risk-averse criteria, quadratic CVaR cash = -risk; a fresh clone (F3) quotes the same price, also after another actor re-simulated the underlier (F10). Also: an earlier quote aborted by a raising criterion / model (F8); the same book presented as wealth around 1e4 with a narrow spread; for default-search criteria the test is the search precision read in criterion units.",
         "design_ref": "DESIGN.md 6/C06",
         "note": "Shift-equivariance is not asserted for the isoelastic (CRRA) criterion, which is not translation invariant; default-search criteria run in float64 only (bisect precision 1e-6 vs float32 ulp: termination is C19); non-finite P&L samples (a C18 matter) are skipped and counted.",
         "technique": TECH + "relational checks between API calls on RNG-replayed identical paths, restart fault",
@@ -42,55 +42,55 @@ CLAIMED = {
         "technique": TECH + "simulator-owned random engine (recorded / stalled), step-by-step SDE reference",
     },
     "C11": {
-        "text": "Well-formedness invariants (shape, documented buffer set, first column = requested or default initial state, finiteness, positivity of exponential-type prices, non-negative variances, volatility = sqrt(variance), dtype, buffers replaced entirely - no shared storage, old tensors untouched, no surviving column) are evaluated after EVERY simulate() of a primary, whoever triggered it (primary, derivative, compute_loss, price, fit, lazy materialisation; observed through an instance-level wrapper that also checks that n_paths / init_state were forwarded), in seeded histories with casts, default-dtype flips (F4) and re-simulation with changing shape (F10); plus direct calls of the nine generate_* functions with the same parameter swarm (n_steps >= 1, scalar/tuple initial states, float32/64, half precisions with default parameters). Both QE branches are counted by re-deriving psi from the produced path.",
+        "text": "Well-formedness invariants (shape, documented buffer set, first column = requested or default initial state, finiteness, positivity of exponential-type prices, non-negative variances, volatility = sqrt(variance), dtype, buffers replaced entirely - no shared storage, old tensors untouched, no surviving column) are evaluated after EVERY simulate() of a primary, whoever triggered it (primary, derivative, compute_loss, price, fit, lazy materialisation; observed through an instance-level wrapper that also checks that n_paths / init_state were forwarded), in seeded histories with casts, default-dtype flips (F4) and re-simulation with changing shape (F10); plus direct calls of the nine generate_* functions with the same parameter swarm (n_steps >= 1, scalar/tuple initial states, float32/64, half precisions with default parameters). Both QE branches are counted by re-deriving psi from the produced path. Also: simulations aborted by the caller's engine / sigma_fn or by an argument rejected deep inside (F8) leave the previous complete sample and the user's default dtype (tracked by the harness); a user derivative on two underliers reaches both; float64 series are not float32 numbers.",
         "design_ref": "DESIGN.md 6/C11",
         "note": "First column compared within 4 ulp; half precisions: shape/dtype only, missing CPU kernels tolerated; one known finding (rough Bergomi with a single time point).",
         "technique": TECH + "invariants at an instance-level simulate() seam over seeded cast / re-simulate / trigger histories",
     },
     "C12": {
-        "text": "Payoffs are monitored inside seeded histories on a family of up to 10 derivatives sharing one underlier and one strike: after re-simulation (F10), casts, clause registration by another actor and market-data faults (F9) that pin the terminal / running extreme / start price exactly on the strike, incl. T=1 and T=2 grids. Oracles: per-path contract evaluated in exact rational arithmetic (mpmath for the variance swap; exact-rational start index for the forward start), fold of the registered clauses in registration order over payoff_fn() (bitwise), relations between the family members (lookback >= European >= 0, American >= European binary, call - put = S_T - K), one entry per path.",
+        "text": "Payoffs are monitored inside seeded histories on a family of up to 10 derivatives sharing one underlier and one strike: after re-simulation (F10), casts, clause registration by another actor and market-data faults (F9) that pin the terminal / running extreme / start price exactly on the strike, incl. T=1 and T=2 grids. Oracles: per-path contract evaluated in exact rational arithmetic (mpmath for the variance swap; exact-rational start index for the forward start), fold of the registered clauses in registration order over payoff_fn() (bitwise), relations between the family members (lookback >= European >= 0, American >= European binary, call - put = S_T - K), one entry per path. Also: step size, start, call/put and strike assigned on live objects and re-simulated; a clause that raises once inside payoff() (F8).",
         "design_ref": "DESIGN.md 6/C12",
         "note": "Tolerance 4*eps*(|S|+|K|); comparisons within 2 ulp of a strike not representable in the dtype are skipped (counted); functional:* operations on tapes are plain value generation and labelled so.",
         "technique": TECH + "per-path exact contract reference on the live object graph, pin-on-strike data faults, clause-order model",
     },
     "C13": {
-        "text": "After every derivative.simulate in seeded histories where two derivatives of different maturities (and a two-underlier user derivative) share and re-simulate one underlier: the number of time points of every buffer equals the exact-rational grid model (ceil(M/dt)+1, k+1 when M/dt is within 1e-9 of an integer k - maturities built as k*dt, k/denominator, repeated sums, (k+frac)*dt over 12 step sizes and all 8 primaries); time to maturity for every step, negative indices and None equals (T-1-i)*dt within 16 ulp, is strictly decreasing and exactly 0 at the end; payoff, features and hedge use the same grid.",
+        "text": "After every derivative.simulate in seeded histories where two derivatives of different maturities (and a two-underlier user derivative) share and re-simulate one underlier: the number of time points of every buffer equals the exact-rational grid model (ceil(M/dt)+1, k+1 when M/dt is within 1e-9 of an integer k - maturities built as k*dt, k/denominator, repeated sums, (k+frac)*dt over 12 step sizes and all 8 primaries); time to maturity for every step, negative indices and None equals (T-1-i)*dt within 16 ulp, is strictly decreasing and exactly 0 at the end; payoff, features and hedge use the same grid. Also: dt and maturity assigned on live objects before re-simulation, 19 step sizes incl. non-1/integer ones.",
         "design_ref": "DESIGN.md 6/C13",
         "note": "Ratios whose exact distance to an integer lies between 1e-9 and 1e-6 (relative) are not judged.",
         "technique": TECH + "exact-rational grid reference model as invariant after every simulate, aliasing re-simulation fault",
     },
     "C02": {
-        "text": "Seeded search over worlds (underlier x derivative x feature set x model x dtype) with fault F1 (future corruption): online - a causal market feed in which the simulator reveals column t+1 of every reachable buffer only after the model has answered step t, and offline - corrupt columns > t*, recompute, compare the prefix. Oracles: model inputs and hedges bitwise equal to the clean run for steps <= t, for both branches of compute_hedge and every feature separately; last two hedge columns bitwise equal. Sampling, not proof.",
+        "text": "Seeded search over worlds (underlier x derivative x feature set x model x dtype) with fault F1 (future corruption): online - a causal market feed in which the simulator reveals column t+1 of every reachable buffer only after the model has answered step t, and offline - corrupt columns > t*, recompute, compare the prefix. Oracles: model inputs and hedges bitwise equal to the clean run for steps <= t, for both branches of compute_hedge and every feature separately; last two hedge columns bitwise equal. Sampling, not proof. Also: kept bound feature objects queried out of order, price scales far from 1, an earlier pass aborted by the model (F8).",
         "design_ref": "DESIGN.md 6/C02",
         "note": "Garbage is kept admissible for whole-tensor validation in pricing modules (NaN/negative fills fall back to finite positive garbage when a module rejects them); 'empty' feature excluded; CPU only.",
         "technique": TECH + "causal market feed through a per-step model seam + future-corruption differential, bitwise oracle",
     },
     "C03": {
-        "text": "Seeded search over worlds and short operation/fault sequences: every feature at every step vs its all-steps column; the same model driven through the vectorised and (via an ignored prev_hedge input) the stepwise branch - hedge, model inputs, P&L and loss compared; the recorded per-step inputs of a state-dependent hedger vs its previous outputs (bitwise), zero state of width H at step 0, T-1 calls; faults F2 (garbage prev_output), F8 (model raised in the previous call), F10 (hedger used on another simulation in between) placed right before the observed call.",
+        "text": "Seeded search over worlds and short operation/fault sequences: every feature at every step vs its all-steps column; the same model driven through the vectorised and (via an ignored prev_hedge input) the stepwise branch - hedge, model inputs, P&L and loss compared; the recorded per-step inputs of a state-dependent hedger vs its previous outputs (bitwise), zero state of width H at step 0, T-1 calls; faults F2 (garbage prev_output), F8 (model raised in the previous call), F10 (hedger used on another simulation in between) placed right before the observed call. Also: kept feature objects across re-simulations and re-strikes, the same feature object bound to a second contract, recurrent runs under grad in both module modes (graph identity of prev_hedge), price scales far from 1.",
         "design_ref": "DESIGN.md 6/C03",
         "note": "Cross-schedule agreement is checked within an evaluation-order tolerance (16 ulp for direct features; 1e-4 float32 / 1e-11 float64 for model outputs, P&L, loss); recurrent-state checks are bitwise.",
         "technique": TECH + "two schedules of one computation compared at a recording per-step seam, volatile-state faults",
     },
     "C17": {
-        "text": "Seeded sequences (2-10 ops) over a 29-letter alphabet of casts (to(dtype/None/device/tensor/instrument/int), all shorthands, derivative.to), simulate (primary / derivative), register_buffer and global default-dtype flips (F4), for all 8 primaries x 6 derivative kinds x both initial defaults, checked after every operation against a reference state machine of the declared dtype: instrument.dtype, every buffer dtype, derivative alias, rejection of non-floating targets without state change, and the dtype of payoff, every feature (all steps and single step), listed price, hedge, P&L (also with a listed hedge), Black-Scholes hedger outputs, and of compute_loss / price after re-simulation.",
+        "text": "Seeded sequences (2-10 ops) over a 29-letter alphabet of casts (to(dtype/None/device/tensor/instrument/int), all shorthands, derivative.to), simulate (primary / derivative), register_buffer and global default-dtype flips (F4), for all 8 primaries x 6 derivative kinds x both initial defaults, checked after every operation against a reference state machine of the declared dtype: instrument.dtype, every buffer dtype, derivative alias, rejection of non-floating targets without state change, and the dtype of payoff, every feature (all steps and single step), listed price, hedge, P&L (also with a listed hedge), Black-Scholes hedger outputs, and of compute_loss / price after re-simulation. Also: int/bool buffers registered by hand, a kept stateful hedger, random cast sequences through a two-underlier derivative, a second derivative or directly at a stock.",
         "design_ref": "DESIGN.md 6/C17",
         "note": "Samples the sequence space by seed (the property text asks for exhaustive bounded enumeration, which is model checking, not this family); evidence reports distinct op prefixes of length <= 3 visited. CPU only; exceptions under float16/bfloat16 are tolerated and counted.",
         "technique": TECH + "seeded operation sequences against a reference dtype state machine, default-dtype fault",
     },
     "C14": {
-        "text": "In seeded float64 worlds (stock kind, derivative, features with/without the recurrent prev_hedge input, smooth model, H in {1,2} incl. a listed hedge, cost zero/positive, 8 criteria incl. OCE with its own parameter and torch losses) and after short histories (re-simulation, a one-epoch fit, a hedge on another batch) the autograd gradient of exactly the scalar that is back-propagated - criterion(compute_portfolio, payoff) on frozen buffers, and compute_loss under RNG replay (F7) - is compared with central finite differences along seeded unit directions (incl. the gradient direction) over model and criterion parameters. A graph-continuity monitor at the per-step seam localises a detached recurrence. price() and compute_loss(enable_grad=False) must carry no graph under both ambient grad modes (F5).",
+        "text": "In seeded float64 worlds (stock kind, derivative, features with/without the recurrent prev_hedge input, smooth model, H in {1,2} incl. a listed hedge, cost zero/positive, 8 criteria incl. OCE with its own parameter and torch losses) and after short histories (re-simulation, a one-epoch fit, a hedge on another batch) the autograd gradient of exactly the scalar that is back-propagated - criterion(compute_portfolio, payoff) on frozen buffers, and compute_loss under RNG replay (F7) - is compared with central finite differences along seeded unit directions (incl. the gradient direction) over model and criterion parameters. A graph-continuity monitor at the per-step seam localises a detached recurrence. price() and compute_loss(enable_grad=False) must carry no graph under both ambient grad modes (F5). Also: horizons up to 200 steps with contractive models, a float32 stock heading the hedge list of a float64 hedger, hedger calls aborted by the model inside price / compute_loss / compute_pl / fit (F8) with the caller's autograd mode asserted afterwards.",
         "design_ref": "DESIGN.md 6/C14",
         "note": "Finite differences are the oracle (h = 1e-6(1+|theta|), threshold 1e-4 rel + 1e-9 abs, mismatch must persist for h/10 and 10h); float64 and smooth activations only.",
         "technique": TECH + "RNG-replayed loss as a deterministic function of parameters, finite-difference oracle, grad-mode faults, per-step graph monitor",
     },
     "C15": {
-        "text": "fit() is run in seeded configurations (k = 0..3 epochs, n_paths, n_times, validation on/off, optimiser class or instance of SGD / SGD+momentum / Adam / Adadelta, materialised / lazy / dropout models, prev_hedge, H in {1,2}, initial states, 4 criteria, a second fit on the same hedger) under ambient grad-mode (F5) and leftover train/eval mode (F6) faults, and its whole interaction history is recorded through public seams (recording optimiser subclass, simulate wrapper, RecModel, recording criterion). History oracles: sequence grammar per epoch (one training batch, one loss, one step, n_times validation batches), exactly k steps of the supplied/constructed optimiser over exactly the model parameters, batch size / initial state forwarded, fresh batches, training forwards in train mode with grad, validation forwards in eval mode without grad, returned history = mean of the recorded validation losses (None when off), parameters change only inside step(); step-local refinement: the gradient stepped on equals the gradient of the loss recomputed on that epoch's recorded batch with the pre-step parameters (rules out accumulation); final parameters and history equal an explicit simulate/loss/backward/step reference loop under the same torch seed (F7).",
+        "text": "fit() is run in seeded configurations (k = 0..3 epochs, n_paths, n_times, validation on/off, optimiser class or instance of SGD / SGD+momentum / Adam / Adadelta, materialised / lazy / dropout models, prev_hedge, H in {1,2}, initial states, 4 criteria, a second fit on the same hedger) under ambient grad-mode (F5) and leftover train/eval mode (F6) faults, and its whole interaction history is recorded through public seams (recording optimiser subclass, simulate wrapper, RecModel, recording criterion). History oracles: sequence grammar per epoch (one training batch, one loss, one step, n_times validation batches), exactly k steps of the supplied/constructed optimiser over exactly the model parameters, batch size / initial state forwarded, fresh batches, training forwards in train mode with grad, validation forwards in eval mode without grad, returned history = mean of the recorded validation losses (None when off), parameters change only inside step(); step-local refinement: the gradient stepped on equals the gradient of the loss recomputed on that epoch's recorded batch with the pre-step parameters (rules out accumulation); final parameters and history equal an explicit simulate/loss/backward/step reference loop under the same torch seed (F7). Also: mode switched directly on the wrapped model or a layer, an earlier fit aborted by the model or KeyboardInterrupt (F8), the same optimiser class passed again, a foreign parameter with a stale gradient in the supplied optimiser, history compared to 64 eps of the hedger's dtype.",
         "design_ref": "DESIGN.md 6/C15",
         "note": "Bitwise comparisons rely on single-threaded deterministic torch; lazy models are exempt from the reference-loop equality (materialisation consumes randomness) but not from the step-local check.",
         "technique": TECH + "recorded optimiser/simulator/mode interaction history checked against an executable reference trainer under RNG replay",
     },
     "C16": {
-        "text": "Seeded search over interleaved multi-actor histories (simulate / hedge / P&L / loss / price / fit / casts / feature, Black-Scholes, criterion and functional calls) on shared instruments and hedgers, with faults F2 (volatile-state corruption), F3 (restart from durable state), F7 (RNG replay), F8 (callback exception) and F10 (re-simulation by another actor). Invariant after every operation: every buffer of every instrument and every caller tensor is bitwise unchanged; history oracle: a fresh clone built from durable state gives bitwise the same result. Sampling, not proof.",
+        "text": "Seeded search over interleaved multi-actor histories (simulate / hedge / P&L / loss / price / fit / casts / feature, Black-Scholes, criterion and functional calls) on shared instruments and hedgers, with faults F2 (volatile-state corruption), F3 (restart from durable state), F7 (RNG replay), F8 (callback exception) and F10 (re-simulation by another actor). Invariant after every operation: every buffer of every instrument and every caller tensor is bitwise unchanged; history oracle: a fresh clone built from durable state gives bitwise the same result. Sampling, not proof. Also: one ModuleOutput object held by two hedgers, a shared default criterion, re-listing and default-dtype flips, a raising pricer of a listed derivative (F8), contract twins (a derivative rebuilt from the live one's public attributes reports bitwise the same state), a mixed-precision hedge list.",
         "design_ref": "DESIGN.md 6/C16",
         "note": "Trusts torch determinism with one thread; values compared bitwise (requires_grad flag flips are only counted); 'empty' feature excluded; CPU only.",
         "technique": "deterministic simulation with fault injection: seeded operation/fault histories, snapshot invariants, restart-equivalence oracle, ddmin-shrunk JSON replay",
